@@ -14,6 +14,7 @@ import (
 	"fmt"
 	"io"
 	"net"
+	"os"
 	"runtime"
 	"runtime/debug"
 	"strings"
@@ -42,7 +43,7 @@ const (
 // fault kinds, in the order of the case index
 // "wrlost" is the half-dead connection: exactly the k-th Write fails, reads
 // keep working and the peer keeps answering as if everything had arrived.
-var kinds = []string{"eof", "wrbreak", "rdfail", "wrfail", "cancel-silent", "cancel-live", "cancel-blocked", "wrlost", "cancel-nodl", "precancel"}
+var kinds = []string{"eof", "wrbreak", "rdfail", "wrfail", "cancel-silent", "cancel-live", "cancel-blocked", "wrlost", "cancel-nodl", "precancel", "rdtimeout", "wrtimeout"}
 
 // "cancel-nodl": the handshake runs on a transport without deadline methods
 // (the library cannot interrupt anything), the scripted peer answers on demand
@@ -50,6 +51,12 @@ var kinds = []string{"eof", "wrbreak", "rdfail", "wrfail", "cancel-silent", "can
 // connection operation.  "precancel" (k = 0 only): the context is already
 // cancelled when the constructor is called, same transport.  The constructor
 // must still report the cancellation.
+// "rdtimeout" / "wrtimeout": the k-th Read / Write fails with a timeout-typed
+// error (a net.Error whose Timeout() is true, wrapping os.ErrDeadlineExceeded)
+// although the context is live: a deadline somebody else put on the
+// connection, a transport-level timeout.
+var errTimeout = &net.OpError{Op: "io", Net: "bufconn", Err: os.ErrDeadlineExceeded}
+
 func noDeadlineKind(kind string) bool { return kind == "cancel-nodl" || kind == "precancel" }
 
 func byteKind(kind string) bool { return kind == "eof" || kind == "wrbreak" }
@@ -228,13 +235,15 @@ type run struct {
 	setsBefore   int
 	actionNote   string
 
-	sess     *xmpp.Session
-	err      error
-	returned bool
-	panicKey string
-	panicMsg string
-	stuck    string // why the constructor can never return
-	stuckAt  string
+	sess      *xmpp.Session
+	err       error
+	returned  bool
+	panicKey  string
+	panicMsg  string
+	spinLimit int    // transport operations after which the call is judged to spin
+	spin      int    // operations counted when the limit was passed
+	stuck     string // why the constructor can never return
+	stuckAt   string
 }
 
 func (r *run) construct(done chan struct{}) {
@@ -303,6 +312,12 @@ func (r *run) execute() {
 		fp.WriteBreakAfter = r.f.K
 	case "rdfail":
 		fp.FailRead = r.f.K + 1
+	case "rdtimeout":
+		fp.FailRead = r.f.K + 1
+		fp.Err = errTimeout
+	case "wrtimeout":
+		fp.FailWrite = r.f.K + 1
+		fp.Err = errTimeout
 	case "wrfail", "wrlost":
 		fp.FailWrite = r.f.K + 1
 	case "cancel-nodl":
@@ -386,6 +401,15 @@ func (r *run) execute() {
 		case <-done:
 			return
 		default:
+		}
+		if r.spinLimit > 0 {
+			// bounded progress: a handshake that keeps doing transport operations
+			// far beyond the length of its golden run without returning is
+			// spinning (each round re-sends a header, so it would also eat memory)
+			if _, _, n := r.lib.Ops(); n > r.spinLimit {
+				r.spin = n
+				break
+			}
 		}
 		if r.cancelIssued.Load() && r.lib.BlockedNoDeadline() > 0 {
 			if why, at := r.permanentlyBlocked(); why != "" {
@@ -507,7 +531,9 @@ func extent(g *golden, kind string) int {
 		return g.W
 	case "rdfail":
 		return g.NR
-	case "wrfail", "wrlost":
+	case "rdtimeout":
+		return g.NR
+	case "wrfail", "wrlost", "wrtimeout":
 		return g.NW
 	case "cancel-silent", "cancel-live":
 		return g.NOps
@@ -587,10 +613,11 @@ func one(c *core.Case, h *handshake, f fault) {
 		} else {
 			c.Count("golden_within_bounds", 1)
 		}
-		c.Count("golden_fault_points", g.R+g.W+g.NR+2*g.NW+2*g.NOps+g.NCalls+extent(g, "cancel-nodl")+extent(g, "precancel"))
+		c.Count("golden_fault_points", g.R+g.W+g.NR+2*g.NW+2*g.NOps+g.NCalls+extent(g, "cancel-nodl")+extent(g, "precancel")+g.NR+g.NW)
 	}
 
 	r := newRun(h, f)
+	r.spinLimit = 50*g.NOps + 500
 	r.execute()
 	active := f.Kind != "golden" && f.K < extent(g, f.Kind)
 	if h.TLS && f.Kind != "golden" {
@@ -602,7 +629,9 @@ func one(c *core.Case, h *handshake, f fault) {
 		switch f.Kind {
 		case "rdfail":
 			active = nr >= f.K+1
-		case "wrfail", "wrlost":
+		case "rdtimeout":
+			active = nr >= f.K+1
+		case "wrfail", "wrlost", "wrtimeout":
 			active = nw >= f.K+1
 		case "cancel-silent", "cancel-live", "cancel-blocked":
 			active = r.cancelCalled.Load()
@@ -635,6 +664,9 @@ func one(c *core.Case, h *handshake, f fault) {
 	c.Count("runs", 1)
 	c.Count("negotiate_steps_run", r.log.Negotiated())
 	if len(failed) > 0 {
+		if strings.Contains(h.Key, "parsefail-unusable") {
+			c.Count("parse_errors_of_unusable_features", 1)
+		}
 		c.Count("step_errors_logged", len(failed))
 		for _, rec := range failed {
 			c.Count("step_errors_logged:"+rec.Kind, 1)
@@ -647,6 +679,12 @@ func one(c *core.Case, h *handshake, f fault) {
 	// --- no panic, whatever the fault
 	if r.panicKey != "" {
 		c.Violate(r.panicKey, "%s %s k=%d: %s", h.Name, f.Kind, f.K, r.panicMsg)
+		return
+	}
+
+	// --- bounded progress
+	if r.spin > 0 {
+		c.Violate("failopen:spin:"+h.Key, "%s (%s, fault %s k=%d): the constructor has not returned after %d transport operations (the golden run has %d): it keeps re-running the handshake (%d bytes written so far)", h.Name, h.Role, f.Kind, f.K, r.spin, g.NOps, len(r.lib.Written()))
 		return
 	}
 
@@ -879,7 +917,7 @@ func Prop() *core.Prop {
 		Run:        runCase,
 		Exhaustive: func(string) bool { return true },
 		Require: []string{"golden_ok", "golden_within_bounds", "fault_runs:eof", "fault_runs:wrbreak", "fault_runs:rdfail", "fault_runs:wrfail",
-			"fault_runs:cancel-silent", "fault_runs:cancel-live", "fault_runs:cancel-blocked", "fault_runs:wrlost", "write_lost:last_write_of_handshake", "fault_runs:cancel-nodl", "fault_runs:precancel", "cancellations_without_deadlines", "sasl_response_writes_lost", "refusal_shapes_failed_closed", "cancellations_issued", "cancellations_that_reached_the_deadlines",
+			"fault_runs:cancel-silent", "fault_runs:cancel-live", "fault_runs:cancel-blocked", "fault_runs:wrlost", "write_lost:last_write_of_handshake", "fault_runs:cancel-nodl", "fault_runs:precancel", "fault_runs:rdtimeout", "fault_runs:wrtimeout", "parse_errors_of_unusable_features", "cancellations_without_deadlines", "sasl_response_writes_lost", "refusal_shapes_failed_closed", "cancellations_issued", "cancellations_that_reached_the_deadlines",
 			"step_errors_logged", "step_errors_logged:negotiate", "step_errors_logged:list", "step_errors_logged:parse", "failed_steps_with_mask", "failed_closed"},
 		Witnesses: map[string]func(*core.Case){
 			"swallow:voluntary:negotiate":           witness("volfail-init", "golden", 0),
